@@ -9,6 +9,7 @@ VARIABLE doc
 
 A == <<97>>
 B == <<98>>
+UA == <<65>>                \* "A": the same type as "a" in HTML, a different one in XML
 IFR == <<105,102,114,97,109,101>>
 X == <<120>>
 WS == <<32,10>>
@@ -27,7 +28,7 @@ ASSUME PrintT(ToJson([pool |-> [s \in 1..Len(Pool) |-> <<Pool[s]>>]]))
 Init == doc \in {EmptyDoc("doc", FALSE), EmptyDoc("frag", FALSE), EmptyDoc("doc", TRUE)}
 Next == /\ Len(doc.parent) < MaxNodes
         /\ \E p \in Spine(doc) :
-             \/ \E n \in {A, B, IFR} : CanAdd(doc, p, "e") /\ doc' = AddElem(doc, p, n)
+             \/ \E n \in {A, B, IFR, UA} : CanAdd(doc, p, "e") /\ doc' = AddElem(doc, p, n)
              \/ \E tx \in {X, WS} : CanAdd(doc, p, "t") /\ doc' = AddData(doc, p, "t", tx)
              \/ \E k \in {"c", "cd"} : CanAdd(doc, p, k) /\ doc' = AddData(doc, p, k, X)
 
